@@ -171,8 +171,8 @@ def expandCases (join : List String → String) (s : Suite) (c : Case) (pre : Li
     if t.st ≠ c.s then expandCases join s c pre ts (i + 1) acc else
     if t.service = "" ∧ t.method ≠ "" then .error (.methodWithoutService (i + 1)) else
     if t.service ≠ "" ∧ t.method = "" then .error (.serviceWithoutMethod (i + 1)) else
-    if acc.any (fun q => q.fullName = join (pre ++ [t.name])) then
-      .error (.duplicateName (join (pre ++ [t.name]))) else
+    let full := join (pre ++ [t.name])
+    if acc.any (fun q => q.fullName = full) then .error (.duplicateName full) else
     expandCases join s c pre ts (i + 1) (mkPerm join s c pre t :: acc)
 
 /-- the body of the nested loops of `expandSuite` for the looked-up cases that are in the set -/
